@@ -3,6 +3,7 @@ package props
 import (
 	"fmt"
 	"go/ast"
+	"go/token"
 	"strings"
 
 	"verif/internal/an"
@@ -11,12 +12,12 @@ import (
 
 func init() {
 	register(&Property{
-		ID:        "C14",
-		Technique: "static analysis: ORDER/FOLLOW rules on the backup request, the checkpoint worker and the restore path; who-may-call enumeration; guard implication by truth table on the purge decision; argument provenance on canonical terms",
+		ID:          "C14",
+		Technique:   "static analysis: ORDER/FOLLOW rules on the backup request, the checkpoint worker and the restore path; who-may-call enumeration; guard implication by truth table on the purge decision; argument provenance on canonical terms",
 		Explanation: "Decides: (B1) pending in-memory caches are flushed before the checkpoint is requested; (B2) the checkpoint is started inside the apply loop: beginSnapshot asks for it outside its goroutine and is called only from maybeTriggerSnapshot <- applyCommits, GetSnapshot returns only after the checkpoint was started (WaitReady), the result is read only after completion (GetResult waits for done and nothing else), the worker signals started from the engine checkpoint and closes done on every exit; (B3) copying into place never truncates an existing (possibly hard-linked) destination: it is unlinked before it is created; the restore removes and creates files in the data directory only; (B4) a checkpoint is purged only when its index is below the latest snapshot index, which is read from the atomically updated field; (B5) restore closes the engine before touching files and re-opens it after the copies; a kept sst file was verified identical; reopening re-creates the HLL cache, the index manager and the default write batch instead of keeping those bound to the replaced engine; (B2, engines) the mem engine notifies started only after its iterator pinned the view and saves through that iterator; the pebble wrapper notifies only after Checkpoint returned (pebble copies its WAL whole at the end); the rocksdb wrapper arms its notification only under the engine lock; (B4) nothing purges checkpoints inside a restore before the engine is reopened. (B1, write-back) every command that modifies a cached HyperLogLog sketch registers that sketch in the dirty cache before it returns success, the dirty cache is the one Flush purges, and its eviction callback is the write to the engine.",
-		NotDecided: "the rocksdb checkpoint notifies \"started\" from a 20 ms timer because rocksdb does not report when its view is pinned (it is fixed when CreateCheckpoint lists the live files, at its start): whether 20 ms suffices is a timing question no static rule decides (stated in DESIGN.md); equality of the restored data with the state at index i (engine behaviour), rsync, repeated/interleaved backups' timing, that the HLL cache flush is complete (cache internals).",
+		NotDecided:  "the rocksdb checkpoint notifies \"started\" from a 20 ms timer because rocksdb does not report when its view is pinned (it is fixed when CreateCheckpoint lists the live files, at its start): whether 20 ms suffices is a timing question no static rule decides (stated in DESIGN.md); equality of the restored data with the state at index i (engine behaviour), rsync, repeated/interleaved backups' timing, that the HLL cache flush is complete (cache internals).",
 		Assumptions: []string{"path conditions as in C01"},
-		Run: runC14,
+		Run:         runC14,
 	})
 }
 
@@ -145,7 +146,9 @@ func runC14(c *Ctx) {
 	// in the checkpoint, so the notification must come after it (a timer is not enough; found and fixed, see known_findings)
 	if u := c.unit("C14-B2", "engine.(*pebbleEngCheckpoint).Save"); u != nil {
 		cl := an.AnyCall().Where("close(notify)", func(u *an.Unit, s *flow.Site) bool { return s.Builtin == "close" && u.ArgTerm(s, 0) == "p1" })
-		ck := an.AnyCall().Where("pebble Checkpoint", func(u *an.Unit, s *flow.Site) bool { return strings.HasSuffix(an.CalleeName(s), "pebble.(*DB).Checkpoint") })
+		ck := an.AnyCall().Where("pebble Checkpoint", func(u *an.Unit, s *flow.Site) bool {
+			return strings.HasSuffix(an.CalleeName(s), "pebble.(*DB).Checkpoint")
+		})
 		r.Order("C14-B2", u, cl, []an.M{ck}, an.OrderOpts{Min: 1})
 		n := 0
 		for _, l := range u.Lits() {
@@ -166,7 +169,9 @@ func runC14(c *Ctx) {
 		// cannot report that moment; the notification is armed (timer) only after the engine lock is held and the
 		// engine is known open, and never fires on the closed-engine path. Whether the timer is long enough is not decided.
 		arm := an.Call("time.AfterFunc")
-		lock := an.AnyCall().Where("engine read lock", func(u *an.Unit, s *flow.Site) bool { return strings.HasSuffix(an.CalleeName(s), ".RLock") && !s.Deferred })
+		lock := an.AnyCall().Where("engine read lock", func(u *an.Unit, s *flow.Site) bool {
+			return strings.HasSuffix(an.CalleeName(s), ".RLock") && !s.Deferred
+		})
 		r.Order("C14-B2", u, arm, []an.M{lock}, an.OrderOpts{Min: 1})
 		n := 0
 		for _, l := range u.Lits() {
@@ -183,6 +188,106 @@ func runC14(c *Ctx) {
 			}
 		}
 		r.Check("C14-B2", fn+": the notification is sent from the armed timer only", "", n == 1 && direct == 0, fmt.Sprintf("%d in timer closures, %d direct", n, direct))
+	}
+	// B2 (directory lock): the checkpoint directory is written under the exclusive lock that IsLocalBackupOK / Restore
+	// take in read mode, so nobody is told "this backup is usable" (or restores it) while it is still being written
+	if u := c.lit("C14-B2", "rockredis.(*RockDB).backupLoop", an.AnyCall().Where("checkpoint save", func(u *an.Unit, s *flow.Site) bool { return strings.HasSuffix(an.CalleeName(s), "KVCheckpoint.Save") })); u != nil {
+		save := u.Match(an.AnyCall().Where("checkpoint save", func(u *an.Unit, s *flow.Site) bool { return strings.HasSuffix(an.CalleeName(s), "KVCheckpoint.Save") }))
+		isDirLock := func(name string) an.M {
+			return an.AnyCall().Where("checkpointDirLock."+name, func(u *an.Unit, s *flow.Site) bool {
+				if !strings.HasSuffix(an.CalleeName(s), "RWMutex)."+name) {
+					return false
+				}
+				sel, ok := s.Call.Fun.(*ast.SelectorExpr)
+				return ok && strings.HasSuffix(u.C.Term(sel.X), ".checkpointDirLock")
+			})
+		}
+		locks, unlocks := u.Match(isDirLock("Lock")), u.Match(isDirLock("Unlock"))
+		held := len(save) == 1 && len(locks) >= 1
+		why := ""
+		if held {
+			held = false
+			for _, l := range locks {
+				if pathFree(u, save[0], []*flow.Site{l}) {
+					held = true
+				}
+			}
+			if !held {
+				why = "Save is not dominated by checkpointDirLock.Lock()"
+			}
+			for _, ul := range unlocks {
+				if ul.Deferred {
+					continue
+				}
+				for _, l := range locks {
+					if reaches(u, l, ul) && reaches(u, ul, save[0]) {
+						held = false
+						why = "checkpointDirLock is released at " + u.Pos(ul.Pos) + " before Save writes the checkpoint"
+					}
+				}
+			}
+		}
+		r.Check("C14-B2", "backupLoop worker: the checkpoint is written while checkpointDirLock is held exclusively", "", held, why)
+	}
+	for _, fn := range []string{"rockredis.(*RockDB).IsLocalBackupOK", "rockredis.(*RockDB).restoreFromPath"} {
+		if u := c.unit("C14-B2", fn); u != nil {
+			rl := an.AnyCall().Where("checkpointDirLock.RLock", func(u *an.Unit, s *flow.Site) bool {
+				sel, ok := s.Call.Fun.(*ast.SelectorExpr)
+				return ok && strings.HasSuffix(an.CalleeName(s), "RWMutex).RLock") && strings.HasSuffix(u.C.Term(sel.X), ".checkpointDirLock")
+			})
+			r.Order("C14-B2", u, an.Call("rockredis.(*RockDB).isBackupOKInPath"), []an.M{rl}, an.OrderOpts{Min: 1})
+		}
+	}
+	// B5 (kept files): a kept sst was compared on its footer, read at the footer offset of both files; and every file
+	// of the checkpoint is (re)linked or copied into place whether or not a same-named file was kept
+	if u := c.unit("C14-B5", "rockredis.isSameSSTFile"); u != nil {
+		r.ArgValues("C14-B5", u, an.Call("os.(*File).ReadAt"), 1, []string{"roffset"}, 2)
+		r.StoreValues("C14-B5", u, an.LocalStore("roffset"), []string{"(stat1.Size() - rbytes)", "0", "(stat1.Size() - 262144)", "(-262144 + stat1.Size())"}, 1)
+	}
+	if u := c.unit("C14-B5", "rockredis.(*RockDB).restoreFromPath"); u != nil {
+		copies := u.Match(an.Call("common.CopyFileForHardLink", "common.CopyFile"))
+		okAll := len(copies) >= 2
+		why := ""
+		ast.Inspect(u.Body, func(n ast.Node) bool {
+			rs, ok := n.(*ast.RangeStmt)
+			if !ok {
+				return true
+			}
+			first := token.NoPos
+			for _, cp := range copies {
+				if cp.Pos >= rs.Body.Pos() && cp.Pos < rs.Body.End() && (first == token.NoPos || cp.Pos < first) {
+					first = cp.Pos
+				}
+			}
+			if first == token.NoPos {
+				return true
+			}
+			// the only element that may be skipped is the engine's info LOG file, which is not data
+			var ifs []*ast.IfStmt
+			ast.Inspect(rs.Body, func(m ast.Node) bool {
+				if is, ok := m.(*ast.IfStmt); ok {
+					ifs = append(ifs, is)
+				}
+				if br, ok := m.(*ast.BranchStmt); ok && br.Pos() < first && (br.Tok == token.CONTINUE || br.Tok == token.BREAK) {
+					exempt := false
+					for _, is := range ifs {
+						if is.Body.Pos() <= br.Pos() && br.Pos() < is.Body.End() {
+							ct := u.C.Term(is.Cond)
+							if strings.HasPrefix(ct, "strings.HasPrefix(path.Base(") && strings.HasSuffix(ct, `, "LOG")`) {
+								exempt = true
+							}
+						}
+					}
+					if !exempt {
+						okAll = false
+						why = "the copy loop skips an element at " + u.Pos(br.Pos()) + " before it reaches the copy"
+					}
+				}
+				return true
+			})
+			return true
+		})
+		r.Check("C14-B5", u.Name+": every file of the checkpoint is linked or copied into the data directory (no element of the copy loop is skipped)", "", okAll, why)
 	}
 	// B4: while a checkpoint is being restored nothing may purge checkpoints (the one being copied could be selected)
 	if u := c.unit("C14-B4", "rockredis.(*RockDB).restoreFromPath"); u != nil {
